@@ -65,4 +65,103 @@ let slices t b =
     pr_str b " "; pr_nat b (slice_len total (nat_of_int p) (nat_of_int r))
   done
 
-let () = main [ ("signedmpi", signedmpi); ("signedmpi_fixed", signedmpi_fixed); ("redtree", redtree); ("slices", slices) ]
+
+(* ---- the MPI tree variants per rank (MpiTreesModel.v) ---------------------------------------------------------------
+   treesmpi : <fvs|iso> <seq|tbb> <graph> <r> roots <f> picks <P> then
+       seq:  per rank  <n> (<tree id> <edge forest index>)*n       the rank's candidate vector in the order its sort left it
+       tbb:  <phases> then per phase, per rank  <exists> [<weight> <n> <edge forest index>*n]   the reported local minima
+   prints  PAIRS (rank 0's serialised list) | per rank  R r CHUNK .. CANDS (tree root eidx weight)* [SORT ok|bad] |
+           per phase  PH k (L .. per rank | A 0/1 per rank)  G ..  | EMIT (the cycles rank 0 emits, as sorted edge ids) *)
+let builder_of = function "fvs" -> TbFvs | "iso" -> TbIso | s -> failwith ("unknown builder " ^ s)
+
+let pr_lres b fi (x : (nat list * z) option option) =
+  match x with
+  | None -> pr_str b " ERR"
+  | Some None -> pr_str b " 0"
+  | Some (Some (c, w)) ->
+      let ix = edges_to_indices fi c in
+      pr_str b " 1 "; pr_z b w; pr_str b " "; pr_int b (List.length ix); pr_nats b ix
+
+let treesmpi t b =
+  let bld = builder_of (next t) in
+  let flavour = next t in
+  let (n, es, ws) = next_graph_raw t in
+  let g = { nv = nat_of_int n; ge = es } in
+  let roots = next_list t next_nat in
+  let picks = next_list t next_nat in
+  let p = next_int t in
+  let pn = nat_of_int p in
+  match mt_all_pairs_Z bld g ws roots picks with
+  | None -> pr_str b "MODEL-NOCOLLECTION"
+  | Some (fi, ser) ->
+      pr_str b "PAIRS "; pr_int b (List.length ser);
+      List.iter (fun (v, e) -> pr_str b " "; pr_nat b v; pr_str b " "; pr_nat b e) ser;
+      let idx_of e = List.nth fi.fi_idx (int_of_nat e) in
+      let chunks = Array.init p (fun r -> slice pn (nat_of_int r) ser) in
+      let locals = Array.map (fun ch -> mt_local_Z g ws fi ch) chunks in
+      let pr_rank r =
+        pr_str b " | R "; pr_int b r; pr_str b " CHUNK "; pr_int b (List.length chunks.(r));
+        List.iter (fun (v, e) -> pr_str b " "; pr_nat b v; pr_str b " "; pr_nat b e) chunks.(r);
+        (match locals.(r) with
+         | MtOk (ts, l) ->
+             pr_str b " CANDS "; pr_int b (List.length l);
+             List.iter (fun c ->
+               pr_str b " "; pr_nat b c.c_tree; pr_str b " ";
+               (match List.nth_opt ts (int_of_nat c.c_tree) with Some tr -> pr_nat b tr.st_src | None -> pr_str b "?");
+               pr_str b " "; pr_nat b (idx_of c.c_edge); pr_str b " "; pr_z b c.c_weight) l
+         | MtRange -> pr_str b " MODEL-RANGE" | MtTree -> pr_str b " MODEL-TREE" | MtBadOracle -> pr_str b " MODEL-BADORACLE") in
+      let tree = boost_reduce_tree pn in
+      let pr_trace tr pr_local =
+        List.iteri (fun k ((_, ls), gl) ->
+          pr_str b " | PH "; pr_int b k; List.iteri (fun r l -> pr_local k r l) ls; pr_str b " G"; pr_lres b fi gl) tr;
+        pr_str b " | EMIT "; pr_int b (List.length tr);
+        List.iter (fun ((_, _), gl) ->
+          match gl with
+          | Some (Some (c, _)) -> pr_str b " "; pr_int b (List.length c); pr_nats b c
+          | _ -> pr_str b " 0") tr in
+      if flavour = "seq" then begin
+        (* recover each rank's arrangement: the position, in the model's unsorted vector, of every reported (tree, edge index) *)
+        let arrs = Array.init p (fun r ->
+          let rep = next_list t (fun t -> let a = next_int t in let e = next_int t in (a, e)) in
+          match locals.(r) with
+          | MtOk (_, l) ->
+              let cands = Array.of_list (List.map (fun c -> (int_of_nat c.c_tree, int_of_nat (idx_of c.c_edge))) l) in
+              let used = Array.make (Array.length cands) false in
+              List.map (fun key ->
+                let pos = ref (Array.length cands) in
+                Array.iteri (fun i k -> if !pos = Array.length cands && not used.(i) && k = key then pos := i) cands;
+                if !pos < Array.length cands then used.(!pos) <- true;
+                nat_of_int !pos) rep
+          | _ -> []) in
+        for r = 0 to p - 1 do
+          pr_rank r;
+          (match locals.(r) with
+           | MtOk (_, l) -> (match mt_sort_Z l arrs.(r) with MtOk _ -> pr_str b " SORT ok" | _ -> pr_str b " SORT bad")
+           | _ -> ())
+        done;
+        let local r k sv = mt_rank_lookup_seq_Z g ws fi arrs.(int_of_nat r) chunks.(int_of_nat r) k sv in
+        pr_trace (mt_trace_run_Z fi pn (fun _ -> tree) local) (fun _ _ l -> pr_str b " L"; pr_lres b fi l)
+      end else begin
+        for r = 0 to p - 1 do pr_rank r done;
+        let nph = next_int t in
+        let rep = Array.init nph (fun _ -> Array.init p (fun _ ->
+          let ex = next_int t in
+          if ex = 0 then Some None
+          else begin
+            let w = next_z t in
+            let ix = next_list t next_nat in
+            Some (Some (indices_to_edges fi ix, w))
+          end)) in
+        let local r k _ =
+          let ki = int_of_nat k and ri = int_of_nat r in
+          if ki < nph then rep.(ki).(ri) else None in
+        let tr = mt_trace_run_Z fi pn (fun _ -> tree) local in
+        let svs = Array.of_list (List.map (fun ((sv, _), _) -> sv) tr) in
+        pr_trace tr (fun k r l ->
+          pr_str b " A ";
+          match l with
+          | Some bb -> pr_int b (if mt_rank_accept_tbb_Z g ws fi chunks.(r) svs.(k) bb then 1 else 0)
+          | None -> pr_str b "ERR")
+      end
+
+let () = main [ ("treesmpi", treesmpi); ("signedmpi", signedmpi); ("signedmpi_fixed", signedmpi_fixed); ("redtree", redtree); ("slices", slices) ]
